@@ -438,6 +438,11 @@ func TestC19(t *testing.T) {
 		}
 		got, note := e.observe(b, c.setting, expect)
 		b.Stop()
+		if got != expect && strings.Contains(b.Log(), "address already in use") {
+			// a port picked as free was taken by a parallel probe before the server bound it: not a verdict
+			r.Outcome("port-collision(not judged)")
+			continue
+		}
 		if got != expect {
 			r.Outcome("wrong-effect")
 			r.Violation("C19:no-effect:"+c.setting+":"+channelsOf(assigns), sprintf("%s: observed %q, want %q %s", c.name, got, expect, note), rep)
